@@ -644,6 +644,29 @@ func (x *inst) battery(note string) {
 		return
 	}
 	allOK := x.cmpEnum("All", out, want, note)
+	if allOK {
+		// one iterator value walked again after a complete walk: "calling the iterator again
+		// walks the sequence again" (package iter)
+		if !x.call("All", func() {
+			seq := x.bm.All()
+			n := 0
+			for range seq {
+				if n++; n > limit {
+					break
+				}
+			}
+			out = out[:0]
+			for v := range seq {
+				out = append(out, v)
+				if len(out) >= limit {
+					break
+				}
+			}
+		}) {
+			return
+		}
+		allOK = x.cmpEnum("All (same iterator value walked a second time)", out, want, note)
+	}
 
 	// early stop: fn / yield returns false at its k-th call, k = 1..3 (only where the complete
 	// enumeration was right, a wrong one would only be echoed)
